@@ -30,6 +30,23 @@ def chunkings(rng, data: bytes):
     return parts
 
 
+def peer_lengths(rng, data: bytes, depth=0) -> bytes:
+    """Re-encode the length fields of a well-formed stream the way other implementations do (X.690 8.1.3.5 allows
+    any number of leading zero octets in the long form; Active Directory sends 30 84 00 00 00 LL)."""
+    from oracle import ber
+
+    out, pos = b"", 0
+    while pos < len(data):
+        cls, cons, num, hl, ln = ber.parse_header(data, pos)
+        content = data[pos + hl : pos + hl + ln]
+        if cons and depth < 3 and rng.random() < 0.5:
+            content = peer_lengths(rng, content, depth + 1)
+        form = rng.choice([4, 4, 2, 1, 3]) if (depth == 0 or rng.random() < 0.3) else 0
+        out += ber.tlv(cls, cons, num, content, form)
+        pos += hl + ln
+    return out
+
+
 class C02(SessionProp):
     id = "C02"
     prop_file = "Props/C02"
@@ -38,7 +55,7 @@ class C02(SessionProp):
     rule = (
         "seeded streams of 1-6 well-formed messages addressed to a client (responses to requests it issued first, "
         "incl. several entries per search) or a server (requests with fresh ids), cut into chunks byte-by-byte, at 1-8 "
-        "random positions, after the first octet, with empty chunks inserted; the chunked run is compared with the "
+        "random positions, after the first octet, with empty chunks inserted; 30% of the streams re-encoded with the zero-padded long-form lengths other servers emit (30 84 00 00 00 LL) and a corpus cutting such a stream at every offset of its first header; the chunked run is compared with the "
         "single delivery on the implementation and with the extracted model; the input bytearray is overwritten after "
         "each receive() and earlier results re-rendered at the end (aliasing clause); non-trivial = 2+ chunks"
     )
@@ -90,6 +107,8 @@ class C02(SessionProp):
             # an arbitrary (possibly unacceptable) sequence: only agreement of outcome/state is claimed
             ms.append(msgs.g_msg(rng))
         stream = b"".join(msgs.pack(m) for m in ms)
+        if rng.random() < 0.3:
+            stream = peer_lengths(rng, stream)
         chunks = chunkings(rng, stream)
         return {"role": role, "pre": pre, "msgs": ms, "chunks": chunks, "calls": pre + [[RECV, c] for c in chunks], "meta": None}
 
@@ -103,6 +122,13 @@ class C02(SessionProp):
         s = b"".join(msgs.pack(m) for m in (m1, m2, m3))
         out = []
         for chunks in ([s[:1], s[1:]], [bytes([b]) for b in s], [s[:2], s[2:40], s[40:]]):
+            out.append({"role": 1, "pre": [], "msgs": [m1, m2, m3], "chunks": chunks, "calls": [[RECV, c] for c in chunks], "meta": None})
+        # the same stream with zero-padded long-form lengths, cut once at every offset
+        import random
+
+        p = peer_lengths(random.Random(1), s)
+        for cut in range(1, min(len(p), 24)):
+            chunks = [p[:cut], p[cut:]]
             out.append({"role": 1, "pre": [], "msgs": [m1, m2, m3], "chunks": chunks, "calls": [[RECV, c] for c in chunks], "meta": None})
         return out
 
